@@ -6,6 +6,7 @@ tolerance, bridging events that merge two sessions) and all placements of the ex
 to the Adds.
 -/
 import SsqlVerif.Proofs.SessionRun
+import SsqlVerif.Proofs.SessionOrder
 set_option autoImplicit false
 
 namespace C10
@@ -82,5 +83,64 @@ def bridgeOps : List Op :=
 example : (run (init 10 100 0) (bridgeOps.take 2)).1.sessions.length = 2 := by decide
 example : ((run (init 10 100 0) bridgeOps).2.map (fun e => (e.start, e.stop, e.rows.map (·.id))))
     = [(100, 125, [1, 2, 3])] := by decide
+
+/-! ### in-order input: the outcome does not depend on how fast the events are fed -/
+
+/-- what a history has produced: the sessions delivered (first deliveries) and the sessions still open, as
+the user sees them (key, window_start, window_end, rows) -/
+def outcome (timeout ooo lateness : Int) (ops : List Op) (x : RefS) : Prop :=
+  x ∈ (run (init timeout ooo lateness) ops).1.sessions.map Sess.toRef ∨ x ∈ firstsRef (run (init timeout ooo lateness) ops).2
+
+/-- **In-order input is sessionized like the reference, whatever the schedule.**  `reference` looks at the
+Adds only (`reference_ignores_schedule`); for every in-order history without idle ticks — Adds interleaved
+with ticker runs and expiry passes in any way, the trigger goroutine lagging arbitrarily — the delivered and
+the still open sessions together are exactly the reference's sessions. -/
+theorem inorder_outcome_is_reference (timeout ooo lateness : Int) (ht : 0 < timeout) (ho : 0 ≤ ooo) (lo : Int)
+    (ops : List Op) (hord : InOrderFrom lo ops) :
+    ∀ x, x ∈ reference timeout ops ↔ outcome timeout ooo lateness ops x := by
+  obtain ⟨hi, hj⟩ := j_run (init timeout ooo lateness) [] [] lo (j_init timeout ooo lateness ht ho lo) ops hord
+  intro x
+  have := hj.same x
+  rw [List.nil_append] at this
+  exact this
+
+theorem reference_ignores_schedule (timeout : Int) (a b : List Op) (h : addsOf a = addsOf b) :
+    reference timeout a = reference timeout b := reference_congr timeout a b h
+
+/-- **Schedule independence.**  Two in-order histories with the same Adds — fed fast or slowly, with expiry
+passes wherever the scheduler puts them — have produced the same sessions. -/
+theorem schedule_independent (timeout ooo lateness : Int) (ht : 0 < timeout) (ho : 0 ≤ ooo) (lo : Int)
+    (a b : List Op) (hsame : addsOf a = addsOf b) (ha : InOrderFrom lo a) (hb : InOrderFrom lo b) :
+    ∀ x, outcome timeout ooo lateness a x ↔ outcome timeout ooo lateness b x := by
+  intro x
+  rw [← inorder_outcome_is_reference timeout ooo lateness ht ho lo a ha x,
+      ← inorder_outcome_is_reference timeout ooo lateness ht ho lo b hb x,
+      reference_congr timeout a b hsame]
+
+/-- … in particular once everything has been delivered: the delivered sessions are the reference's. -/
+theorem delivered_is_reference_after_flush (timeout ooo lateness : Int) (ht : 0 < timeout) (ho : 0 ≤ ooo) (lo : Int)
+    (ops : List Op) (hord : InOrderFrom lo ops) (hflushed : (run (init timeout ooo lateness) ops).1.sessions = []) :
+    ∀ x, x ∈ reference timeout ops ↔ x ∈ firstsRef (run (init timeout ooo lateness) ops).2 := by
+  intro x
+  rw [inorder_outcome_is_reference timeout ooo lateness ht ho lo ops hord x]
+  unfold outcome
+  rw [hflushed]
+  simp
+
+/-- two schedules of the same in-order Adds: expiry passes after every Add / only at the end -/
+def eagerOps : List Op :=
+  [.add ['a'] ⟨1, 1000⟩ 1000000, .deliver, .add ['a'] ⟨2, 1005⟩ 1000000, .deliver, .add ['b'] ⟨3, 1007⟩ 1000000, .deliver,
+   .add ['a'] ⟨4, 1050⟩ 1000000, .deliver, .add ['b'] ⟨5, 9000⟩ 1000000, .deliver]
+def lazyOps : List Op :=
+  [.add ['a'] ⟨1, 1000⟩ 1000000, .add ['a'] ⟨2, 1005⟩ 1000000, .tick false 1, .add ['b'] ⟨3, 1007⟩ 1000000,
+   .add ['a'] ⟨4, 1050⟩ 1000000, .add ['b'] ⟨5, 9000⟩ 1000000, .deliver, .deliver, .deliver, .deliver, .deliver]
+example : InOrderFrom 0 eagerOps ∧ InOrderFrom 0 lazyOps ∧ addsOf eagerOps = addsOf lazyOps := by
+  simp [InOrderFrom, eagerOps, lazyOps, addsOf]
+example : (reference 10 eagerOps).map (fun x => (x.key, x.start, x.stop, x.rows.map (·.id))) =
+    [(['a'], 1000, 1015, [1, 2]), (['b'], 1007, 1017, [3]), (['a'], 1050, 1060, [4]), (['b'], 9000, 9010, [5])] := by decide
+example : (firstsRef (run (init 10 0 0) eagerOps).2).length = 3 ∧ (firstsRef (run (init 10 0 0) lazyOps).2).length = 3 := by decide
+/-- out-of-order input is outside the theorem for a reason: the reference is then not what the engine
+(rightly, C10's merge clause) produces -/
+example : ¬ InOrderFrom 0 bridgeOps := by simp [InOrderFrom, bridgeOps]
 
 end C10
